@@ -10,6 +10,7 @@ import (
 	"verif/checker/effects"
 	"verif/checker/load"
 	"verif/checker/report"
+	"verif/checker/taint"
 )
 
 type Prop struct {
@@ -54,9 +55,9 @@ var acceptSpec = map[string][]string{
 	"(*Scalar).SetCanonicalBytes":     {"LEN[len(x) != 32]", "PRED[isReduced#0 == false]"},
 	"(*Scalar).SetUniformBytes":       {"LEN[len(x) != 64]"},
 	// the forwarded class is vacuous (the forwarded buffer is always 64 bytes): optional
-	"(*Scalar).SetBytesWithClamping":  {"LEN[len(x) != 32]", "?via (*Scalar).SetUniformBytes: LEN[len(x) != 64]"},
-	"field.(*Element).SetBytes":       {"LEN[len(x) != 32]"},
-	"field.(*Element).SetWideBytes":   {"LEN[len(x) != 64]"},
+	"(*Scalar).SetBytesWithClamping": {"LEN[len(x) != 32]", "?via (*Scalar).SetUniformBytes: LEN[len(x) != 64]"},
+	"field.(*Element).SetBytes":      {"LEN[len(x) != 32]"},
+	"field.(*Element).SetWideBytes":  {"LEN[len(x) != 64]"},
 }
 
 // ruleShape: the value types consist of exactly the fields the algebraic checks model. An extra field is state
@@ -362,11 +363,6 @@ func init() {
 		TrustedBase: append([]string{"allow-list of external callees", "frozen exception table (validity decisions of decoders; the invariantly false high-bit assertion)"}, trustedCommon...),
 		Exceptions: []report.Exception{
 			{Key: `^CT-BRANCH/\(\*Scalar\)\.signedRadix16/.*\[31\]>127$`, Pattern: true, Reason: "invariantly false: every Scalar is < l < 2^253 (fiat post-condition 0 ≤ eval out1 < m), so byte 31 of its encoding is ≤ 0x10 and the decision sequence is constant — the interval run of RECODE (C01) decides this very comparison false; internal assertion"},
-			{Key: "CT-BRANCH/(*Point).SetBytes/SqrtRatio()#1==0", Reason: "validity decision of a decoder (exempt by the property)"},
-			{Key: "CT-BRANCH/isOnCurve/", Prefix: true, Reason: "isOnCurve is the validity predicate of the coordinate importer: validity decision of a decoder (exempt by the property); its only caller is SetExtendedCoordinates (asserted)"},
-			{Key: "CT-BRANCH/(*Point).SetExtendedCoordinates/isOnCurve()", Reason: "validity decision of a decoder (exempt by the property)"},
-			{Key: "CT-BRANCH/isReduced/", Prefix: true, Reason: "isReduced is the validity predicate of the canonical scalar decoder: validity decision of a decoder (exempt by the property); its only caller is SetCanonicalBytes (asserted)"},
-			{Key: "CT-BRANCH/(*Scalar).SetCanonicalBytes/isReduced()", Reason: "validity decision of a decoder (exempt by the property)"},
 		},
 		Floors: []report.Floor{{Rule: "CT-BRANCH", Min: 60}, {Rule: "CT-INDEX", Min: 42}, {Rule: "CT-CALL", Min: 300}, {Rule: "CT-ASM", Min: 1}},
 		Build: func(c *Ctx) {
@@ -377,20 +373,7 @@ func init() {
 				}
 				c.addAll(t.Sinks())
 				c.addAll(t.AsmAudit())
-				// the function-scoped exemptions hold only while the predicates serve decoders alone
-				for pred, caller := range map[string]string{"isOnCurve": "(*Point).SetExtendedCoordinates", "isReduced": "(*Scalar).SetCanonicalBytes"} {
-					o := report.Obligation{Rule: "CT-SCOPE", Key: "CT-SCOPE/" + pred, Config: cfg, OK: true, Detail: pred + " is called only by " + caller}
-					pf := c.anchor(t.P, pred)
-					for _, f := range t.P.Funcs {
-						for _, g := range t.P.Callees(f) {
-							if g == pf && load.ShortName(f) != caller {
-								o.OK = false
-								o.Detail = pred + " is exempt as a decoder's validity predicate but is also called by " + load.ShortName(f)
-							}
-						}
-					}
-					c.Set.Add(o)
-				}
+				c.Set.Note("[%s] %d secret-dependent branches are validity decisions of decoders (%s) or of functions called only inside one, with a side that returns at once", cfg, t.NValidity, strings.Join(taint.Decoders, ", "))
 				var ex []string
 				for _, f := range t.VarTimeOnly {
 					ex = append(ex, load.ShortName(f))
